@@ -76,9 +76,10 @@ func (w *World) verifyCone(roots []*Contract, lemmas []*Lemma, sv *Solver, verbo
 	rr.Funcs = frs
 	// solve
 	type job struct {
-		fr  *FuncResult
-		o   *Oblig
-		smt string
+		fr     *FuncResult
+		o      *Oblig
+		smt    string
+		pruned string
 	}
 	var jobs []job
 	for _, fr := range frs {
@@ -88,7 +89,7 @@ func (w *World) verifyCone(roots []*Contract, lemmas []*Lemma, sv *Solver, verbo
 		ix := buildSliceIndex(fr.Decls, fr.declOwner, fr.axioms)
 		for i := range fr.Obls {
 			o := &fr.Obls[i]
-			jobs = append(jobs, job{fr, o, ix.smtText(o)})
+			jobs = append(jobs, job{fr, o, ix.smtText(o, false), ix.smtText(o, true)})
 		}
 	}
 	rr.Results = make([]OblResult, len(jobs))
@@ -101,7 +102,7 @@ func (w *World) verifyCone(roots []*Contract, lemmas []*Lemma, sv *Solver, verbo
 			defer wg.Done()
 			defer func() { <-sem }()
 			j := jobs[i]
-			r := sv.solve(j.smt, j.o.Canary)
+			r := sv.solveVariants(j.pruned, j.smt, j.o.Canary)
 			rr.Results[i] = OblResult{O: j.o, R: r, SMT: j.smt}
 		}(i)
 	}
@@ -233,7 +234,10 @@ func report(rr *RunResult, verbose bool, keep string) int {
 					}
 					continue
 				}
-				if r.R.Status == "unsat" {
+				if r.O.Kind == "vacuity-pre" {
+					continue
+				}
+				if r.R.Status == "unsat" && !(r.O.Kind == "vacuity-post" && preUnsat(rr, r.O.Key)) {
 					canaryBad++
 					fails = append(fails, fmt.Sprintf("   VACUOUS %s (%s)", r.O.Key, r.O.Desc))
 				}
@@ -277,6 +281,17 @@ func report(rr *RunResult, verbose bool, keep string) int {
 			}
 		}
 	}
+	var idxs []int
+	for i := range rr.Results {
+		idxs = append(idxs, i)
+	}
+	sort.Slice(idxs, func(a, b int) bool { return rr.Results[idxs[a]].R.Millis > rr.Results[idxs[b]].R.Millis })
+	for k := 0; k < 6 && k < len(idxs); k++ {
+		r := rr.Results[idxs[k]]
+		if r.R.Millis > 1500 {
+			fmt.Printf("   slow %-60s path %d %s %s %dms\n", r.O.Key, r.O.Path, r.R.Status, r.R.Solver, r.R.Millis)
+		}
+	}
 	fmt.Printf("elapsed %.1fs\n", rr.Elapsed.Seconds())
 	if bad > 0 {
 		return 1
@@ -298,4 +313,19 @@ func main() {
 		fmt.Fprintln(os.Stderr, "unknown command")
 		os.Exit(2)
 	}
+}
+
+// was the path already infeasible before the contract was applied? (then the post canary says nothing)
+func preUnsat(rr *RunResult, postKey string) bool {
+	i := strings.LastIndex(postKey, "/post")
+	if i < 0 {
+		return false
+	}
+	pre := postKey[:i] + "/pre" + postKey[i+5:]
+	for _, j := range rr.ByKey[pre] {
+		if rr.Results[j].R.Status == "unsat" {
+			return true
+		}
+	}
+	return false
 }
